@@ -63,8 +63,25 @@ func ZSONReaders(text string) func(*zed.Context) ([]zio.Reader, error) {
 	}
 }
 
-// RunPlan executes cfg.  Panics of the real code are recovered and reported.
-func RunPlan(cfg PlanCfg) (res PlanResult) {
+// RunPlan executes cfg.  Panics of the real code are recovered and reported.  The run has the
+// timeout of cfg as context deadline; when the runtime does not honour the cancellation the run
+// is abandoned a few seconds later (its goroutines leak) and reported as a timeout as well.
+func RunPlan(cfg PlanCfg) PlanResult {
+	to := cfg.Timeout
+	if to == 0 {
+		to = 60 * time.Second
+	}
+	ch := make(chan PlanResult, 1)
+	go func() { ch <- runPlan(cfg) }()
+	select {
+	case r := <-ch:
+		return r
+	case <-time.After(to + 4*time.Second):
+		return PlanResult{Err: "context deadline exceeded (hard: the runtime did not return after cancellation)", ErrStage: "run"}
+	}
+}
+
+func runPlan(cfg PlanCfg) (res PlanResult) {
 	to := cfg.Timeout
 	if to == 0 {
 		to = 60 * time.Second
